@@ -1,23 +1,30 @@
 ------------------------ MODULE MonitorCadenceTrace ------------------------
 (* Evaluates the Cadence clause of MonitorCadence on publish events         *)
 (* recorded from a real Cluster (env TRACE_FILE, one run per line:          *)
-(* {id, errors, ttl, ping, events:[{name, kind, t, exp, ok}]}); writes per  *)
+(* {id, errors, ttl, ping, end, expect, events:[{name, kind, t, exp, ok}]}); writes per *)
 (* run the missed deadlines and the late / early attempts (env VERDICT_FILE). *)
 EXTENDS MonitorCadence, Json, IOUtils
 
 Runs == ndJsonDeserialize(IOEnv.TRACE_FILE)
 Names(ev) == {ev[i].name : i \in 1..Len(ev)}
+ToSet(q) == {q[i] : i \in 1..Len(q)}
 Verdict(r) ==
     LET per == [nm \in Names(r.events) |->
                   LET q == OfName(r.events, nm)
                       mx == IF q[1].kind = "ping" THEN MaxErrPing ELSE MaxErrInf
-                  IN [n |-> Len(q), miss |-> Misses(q, mx), late |-> Late(q, r.ping, 25), early |-> Early(q, r.ping, 25)]]
+                  IN [n |-> Len(q), miss |-> Misses(q, mx), tail |-> TailMiss(q, mx, r.end),
+                      late |-> Late(q, r.ping, 25), early |-> Early(q, r.ping, 25)]]
+        idx == 1..Len(r.events)
     IN [id |-> r.id, errors |-> r.errors,
         names  |-> Cardinality(Names(r.events)),
         n      |-> Len(r.events),
-        misses |-> {<<nm, i>> \in Names(r.events) \X (1..Len(r.events)) : i \in per[nm].miss},
-        late   |-> {<<nm, i>> \in Names(r.events) \X (1..Len(r.events)) : i \in per[nm].late},
-        early  |-> {<<nm, i>> \in Names(r.events) \X (1..Len(r.events)) : i \in per[nm].early}]
+        \* "each of its metrics": a metric that is never published, or whose last good publish had
+        \* expired when the recording was taken, is a missed deadline as well
+        absent |-> ToSet(r.expect) \ Names(r.events),
+        tail   |-> {nm \in Names(r.events) : per[nm].tail},
+        misses |-> {<<nm, i>> \in Names(r.events) \X idx : i \in per[nm].miss},
+        late   |-> {<<nm, i>> \in Names(r.events) \X idx : i \in per[nm].late},
+        early  |-> {<<nm, i>> \in Names(r.events) \X idx : i \in per[nm].early}]
 
 ASSUME ndJsonSerialize(IOEnv.VERDICT_FILE, [i \in 1..Len(Runs) |-> Verdict(Runs[i])])
 =============================================================================
